@@ -16,7 +16,8 @@ def build_collection(rng, n, dim, q, metric, seed, churn, scenario=None):
     """returns (SearchCase, list of op records). Each op is followed by 'forest' (and the first by nothing else)."""
     c = SearchCase(dim, q, metric, seed)
     ops = []
-    ids = list(range(1, n + 1))
+    base_id = rng.choice([0, 0, 0, 2 ** 63 - 3, 2 ** 64 - 1000])     # ids are unsigned 64-bit: some collections live beyond the signed range
+    ids = [base_id + i for i in range(1, n + 1)]
     rng.shuffle(ids)
     base = rand_vec(rng, dim, 64)
     for id_ in ids:
@@ -46,9 +47,14 @@ def build_collection(rng, n, dim, q, metric, seed, churn, scenario=None):
             id_ = rng.choice(live)
             c.upd(id_, b'u')
             ops.append(('upd', id_, None))
-        elif r < 0.75:
+        elif r < 0.73:
             c.reopen()
             ops.append(('reopen', None, None))
+        elif r < 0.75 and live:
+            # a refused write (vector of the wrong length) on an existing or a new id: nothing may change
+            id_ = rng.choice(live + [base_id + n + 500])
+            c.badadd(id_, rng.choice([1, 2]))
+            ops.append(('bad', id_, None))
         elif r < 0.765 and live:
             for id_ in live:                                  # remove every document, then refill
                 c.rm(id_)
@@ -56,7 +62,7 @@ def build_collection(rng, n, dim, q, metric, seed, churn, scenario=None):
                 c.cmds.append('forest')
             continue
         else:
-            id_ = rng.randrange(n + 1, n + 200)
+            id_ = base_id + rng.randrange(n + 1, n + 200)
             v = rand_vec(rng, dim, q)
             c.add(id_, v, b'new')
             ops.append(('add', id_, v))
@@ -74,6 +80,12 @@ def build_collection(rng, n, dim, q, metric, seed, churn, scenario=None):
             ops.append(('add', id_, v))
             c.cmds.append('forest')
     elif scenario == 'same_vector':
+        # a refused write on an existing document first: it must stay indexed
+        if c.docs:
+            id_ = rng.choice(sorted(c.docs))
+            c.badadd(id_, 1)
+            ops.append(('bad', id_, None))
+            c.cmds.append('forest')
         # write an existing document again with the very same vector, remove it, keep adding
         for id_ in rng.sample(sorted(c.docs), min(3, len(c.docs))):
             v = list(c.docs[id_][0])
@@ -155,7 +167,18 @@ def check(prop, tier, seed, replay=None):
             scenario = ('refill', 'same_vector')[ci % 2] if ci < 2 else rng.choice(['refill', 'same_vector'])
             n = rng.choice([6, 12, 30])
         stats['scenarios'] = stats.get('scenarios', 0) + (1 if scenario else 0)
-        c, ops = build_collection(rng, n, dim, q, metric, rng.choice([0, 0, 11]), churn=((40 if prop == 'C05' else 10) if n else 0) if not scenario else 0, scenario=scenario)
+        if ci == 3:
+            n = rng.choice([140, 260])          # every run has a collection with several leaves per tree
+        if ci == 2:
+            # the third collection of every run: 4-bit packing with an odd dimension, reopened right before the searches
+            q, dim, n = 4, rng.choice([1, 3, 5]), rng.choice([5, 40, 130])
+        c, ops = build_collection(rng, n, dim, q, metric, rng.choice([0, 0, 11]), churn=((40 if prop == 'C05' else 10) if n else 0) if not scenario and ci != 2 else 0, scenario=scenario)
+        if ci == 2 or rng.random() < 0.3:
+            # the index of a reopened collection is rebuilt from the file: searches right after a reopen
+            c.reopen()
+            ops.append(('reopen', None, None))
+            c.cmds.append('forest')
+            stats['reopened_before_search'] = stats.get('reopened_before_search', 0) + 1
         c.cmds.append('docs')
         c.cmds.append('forest')
         searches = []
@@ -185,6 +208,7 @@ def check(prop, tier, seed, replay=None):
                 c.search(K, R, False, fk, fa, fb, qv)
                 c.search(K, R, True, fk, fa, fb, qv)
         lines, rc, err = run_case(c, path)
+        if os.environ.get('LSHDBG'): print('DBG', ci, dim, q, metric, n, scenario, [l for l in lines if l.startswith('res')][:3], c.cmds[-3:])
         stats['collections'] += 1
         if rc != 0 or any(l.startswith('PANIC') for l in lines):
             pl = [l for l in lines if l.startswith('PANIC')][:1]
@@ -338,7 +362,7 @@ def check(prop, tier, seed, replay=None):
         elif broken:
             chk.violation({'engine': 'proof', 'unproved': broken, 'what': 'a proof obligation no longer checks; no failing input found'}, tag='proof', no_input=True)
     chk.cov.update({'programs': stats['collections'], 'evaluations': stats['operations'] + stats['searches'], 'distinct_nontrivial': stats['operations'] + stats['searches'],
-                    'rule': 'collections of 0..420 documents (below and above the leaf threshold of 100; equal vectors and zero vectors that defeat splits), all quantisations, both metrics, seeded and unseeded random source, followed by churn (remove, overwrite with another vector, update, reopen, remove everything then refill; two dedicated scenarios in every run: empty-then-refill without reopening, and rewrite-with-the-same-vector then remove); the forest is dumped after every operation; searches with K, radius, covering radius, filters (including selective ones that reject runs of more than 200 documents), queries equal to stored vectors',
+                    'rule': 'collections of 0..420 documents (below and above the leaf threshold of 100; equal vectors and zero vectors that defeat splits), all quantisations, both metrics, seeded and unseeded random source, followed by churn (remove, overwrite with another vector, update, reopen, a refused write of a wrong-length vector, remove everything then refill; two dedicated scenarios in every run: empty-then-refill without reopening, and rewrite-with-the-same-vector then remove); the forest is dumped after every operation; searches with K, radius, covering radius, filters (including selective ones that reject runs of more than 200 documents), queries equal to stored vectors',
                     'disagreements_checked': stats['searches'] + stats['steps_checked_in_model'], 'samples': samples, 'distribution': stats,
                     'correspondence': 'model and implementation agree' if corr is None else 'DIVERGED', 'proof_obligations_broken': broken})
     chk.assumptions = [NOTE]
